@@ -3,7 +3,7 @@
 # Confirms in a scratch worktree: patch applies+compiles, demo fails with / passes without, full suite still passes.
 set -u
 S=$(readlink -f "$1")
-WT=/tmp/wt/confirm
+WT=${CONFIRM_WT:-/tmp/wt/confirm}
 export CARGO_PROFILE_DEV_DEBUG=0 CARGO_PROFILE_TEST_DEBUG=0 CARGO_NET_OFFLINE=true
 H=$(git -C /repo rev-parse HEAD)
 if [ ! -d $WT ]; then git -C /repo worktree add -q --detach $WT $H; fi
